@@ -38,8 +38,45 @@ var (
 	otherIP  = netip.MustParseAddr("127.0.0.9")
 )
 
+// The queried server's SCION host address is by default the peer's underlay address. The
+// address streams (gen_addr.go) override it (the datagrams still travel to the peer's socket:
+// with a non-empty path the underlay next hop is independent of the SCION destination) and
+// pass the client's own address in its 16-byte IPv4-mapped form.
+var (
+	scionRemoteIP netip.Addr // valid: the queried server's host address instead of the peer's
+	scionLocal16  bool       // localAddr.Host.IP as 16 bytes (net.ParseIP's form) instead of 4
+)
+
+// scionServerHost: the host address of the queried server as an IP address.
+func scionServerHost() netip.Addr {
+	if scionRemoteIP.IsValid() {
+		return scionRemoteIP
+	}
+	return thePeer.addr.Addr()
+}
+
 func scionRemote() udp.UDPAddr {
-	return udp.UDPAddr{IA: remoteIA, Host: net.UDPAddrFromAddrPort(thePeer.addr)}
+	return udp.UDPAddr{IA: remoteIA, Host: net.UDPAddrFromAddrPort(netip.AddrPortFrom(scionServerHost(), thePeer.addr.Port()))}
+}
+
+// scionLocalIP: the bytes handed to the client as localAddr.Host.IP.
+func scionLocalIP() net.IP {
+	if scionLocal16 {
+		return net.IPv4(127, 0, 0, 1).To16()
+	}
+	return net.IPv4(127, 0, 0, 1).To4()
+}
+
+// scionRemoteHeld: the bytes the client holds in remoteAddr.Host.IP when it compares
+// (it replaces them by their 4-byte form when there is one).
+func scionRemoteHeld() []byte {
+	a := scionServerHost()
+	if a.Unmap().Is4() {
+		b := a.Unmap().As4()
+		return b[:]
+	}
+	b := a.As16()
+	return b[:]
 }
 
 func scionReference() string {
@@ -84,15 +121,41 @@ func (l *scionLive) configure(cfg exchCfg, f *recFilter) {
 func (l *scionLive) getPrev() client.VerifC03Prev  { return client.VerifC03PrevSCION(l.c) }
 func (l *scionLive) setPrev(p client.VerifC03Prev) { client.VerifC03SetPrevSCION(l.c, p) }
 func (l *scionLive) measure(ctx context.Context) (time.Time, time.Duration, error) {
-	la := udp.UDPAddr{IA: localIA, Host: &net.UDPAddr{IP: net.IPv4(127, 0, 0, 1).To4()}}
+	la := udp.UDPAddr{IA: localIA, Host: &net.UDPAddr{IP: scionLocalIP()}}
 	ra := scionRemote()
 	var path snet.Path = spath.Path{Src: localIA, Dst: remoteIA, DataplanePath: spath.Empty{},
 		NextHop: net.UDPAddrFromAddrPort(thePeer.addr)}
 	return client.VerifC03MeasureSCION(ctx, l.c, la, ra, path)
 }
+
+// transport: rhost / lhost are the bytes of remoteAddr.Host.IP / localAddr.Host.IP as the client
+// holds them (`x<hex>`; a decimal number is the older form: an address up to IPv4-mapping).
 func (l *scionLive) transport() (string, string) {
-	return "scion", fmt.Sprintf("key="+lib.Bool(l.key)+" ria=%d rhost=%d lia=%d lhost=%d",
-		uint64(remoteIA), addrNum(thePeer.addr.Addr()), uint64(localIA), addrNum(localIP))
+	return "scion", fmt.Sprintf("key="+lib.Bool(l.key)+" ria=%d rhost=x%s lia=%d lhost=x%s",
+		uint64(remoteIA), lib.Hex(scionRemoteHeld()), uint64(localIA), lib.Hex(scionLocalIP()))
+}
+
+// rawHost: a host address of a crafted SCION header given by its 4-bit type/length field and
+// its raw bytes (4 * (typ&3 + 1) of them).
+type rawHost struct {
+	typ uint8
+	raw []byte
+}
+
+// hostTok: a received host address for the model: `t<type field>x<raw bytes>`.
+func hostTok(t slayers.AddrType, raw []byte) string {
+	return fmt.Sprintf("t%dx%s", uint8(t), lib.Hex(raw))
+}
+
+// hostIsIP: the property's own reading of "the host of this header is the IP address ip":
+// the address parses (slayers' own interpretation of type and bytes) as an IP address and is
+// that address, an IPv4 address and its IPv4-mapped IPv6 form being the same.
+func hostIsIP(t slayers.AddrType, raw []byte, ip netip.Addr) bool {
+	if len(raw) != t.Length() {
+		return false
+	}
+	h, err := slayers.ParseAddr(t, raw)
+	return err == nil && h.Type() == addr.HostTypeIP && h.IP().Unmap() == ip.Unmap()
 }
 
 type parsed struct {
@@ -145,6 +208,8 @@ type scionVariant struct {
 	hbh            bool      // a hop-by-hop extension header (padding option) in front of E2E extension / UDP
 	auth           *authSpec // E2E extension with a packet authenticator option (gen_auth.go)
 	rawPathType    byte      // != 0: path type field of the common header overwritten after serialisation (empty path of an unregistered type)
+	srcRaw, dstRaw *rawHost  // != nil: address type field and raw bytes of the source / destination host instead of srcIP / dstIP
+	tsAuto         bool      // e2eTs lies near the request's transmit time: whether the client is expected to use it is decided after the exchange, when the kernel transmit time is known
 }
 
 func tsOptData(ns int64) []byte {
@@ -172,6 +237,12 @@ func buildSCION(v scionVariant, srcPort, dstPort uint16, payload []byte) (d dgra
 		}
 		if err := scn.SetDstAddr(addr.HostIP(v.dstIP)); err != nil {
 			panic(err)
+		}
+		if v.srcRaw != nil {
+			scn.SrcAddrType, scn.RawSrcAddr = slayers.AddrType(v.srcRaw.typ), v.srcRaw.raw
+		}
+		if v.dstRaw != nil {
+			scn.DstAddrType, scn.RawDstAddr = slayers.AddrType(v.dstRaw.typ), v.dstRaw.raw
 		}
 		if err := (spath.Empty{}).SetPath(&scn); err != nil {
 			panic(err)
@@ -269,19 +340,13 @@ func buildSCION(v scionVariant, srcPort, dstPort uint16, payload []byte) (d dgra
 	if layers == "" {
 		layers = "-"
 	}
-	hostNum := func(raw []byte) uint64 {
-		a, ok := netip.AddrFromSlice(raw)
-		if !ok {
-			return 0
-		}
-		return addrNum(a)
-	}
 	isUDP := len(p.decoded) >= 2 && p.decoded[len(p.decoded)-1] == slayers.LayerTypeSCIONUDP
 	ts := "-"
 	if len(p.decoded) >= 3 && p.decoded[len(p.decoded)-2] == slayers.LayerTypeEndToEndExtn && v.e2eTs != 0 {
 		ts = fmt.Sprint(v.e2eTs)
 		d.tsOpt = v.e2eTs
 		d.tsUse = v.tsUse
+		d.tsAuto = v.tsAuto
 	}
 	udpLen := 0
 	if isUDP {
@@ -289,11 +354,15 @@ func buildSCION(v scionVariant, srcPort, dstPort uint16, payload []byte) (d dgra
 		d.b = append([]byte(nil), p.udp.Payload...)
 	}
 	au := readRespAuth(&d, p, layers, udpLen)
-	d.facts = fmt.Sprintf("true:%s:%d:%d:%d:%d:%d:%d:%s:%s", layers, len(d.wire), udpLen,
-		uint64(p.scn.SrcIA), hostNum(p.scn.RawSrcAddr), uint64(p.scn.DstIA), hostNum(p.scn.RawDstAddr), ts, au)
-	d.pathOK = isUDP && len(d.wire) >= udpLen &&
-		p.scn.SrcIA == remoteIA && hostNum(p.scn.RawSrcAddr) == addrNum(thePeer.addr.Addr()) &&
-		p.scn.DstIA == localIA && hostNum(p.scn.RawDstAddr) == addrNum(localIP)
+	d.facts = fmt.Sprintf("true:%s:%d:%d:%d:%s:%d:%s:%s:%s", layers, len(d.wire), udpLen,
+		uint64(p.scn.SrcIA), hostTok(p.scn.SrcAddrType, p.scn.RawSrcAddr), uint64(p.scn.DstIA),
+		hostTok(p.scn.DstAddrType, p.scn.RawDstAddr), ts, au)
+	// the property's conditions in front of the NTP stage, by the harness's own reading:
+	// SCION/UDP structure; from the queried ISD-AS and host, addressed to the client
+	d.structOK = isUDP && len(d.wire) >= udpLen
+	d.addrOK = p.scn.SrcIA == remoteIA && hostIsIP(p.scn.SrcAddrType, p.scn.RawSrcAddr, scionServerHost()) &&
+		p.scn.DstIA == localIA && hostIsIP(p.scn.DstAddrType, p.scn.RawDstAddr, localIP)
+	d.pathOK = d.structOK && d.addrOK
 	return
 }
 
@@ -307,7 +376,7 @@ func firstReading() int64 {
 }
 
 func genuineVariant() scionVariant {
-	return scionVariant{srcIA: remoteIA, dstIA: localIA, srcIP: thePeer.addr.Addr(), dstIP: localIP}
+	return scionVariant{srcIA: remoteIA, dstIA: localIA, srcIP: scionServerHost(), dstIP: localIP}
 }
 
 type scionMutant struct {
